@@ -337,7 +337,26 @@ func (x *Exec) eqValue(a, b Value) string {
 		if len(av.Path) == 0 && len(bp.Path) == 0 {
 			return eq(av.Base, bp.Base)
 		}
-		x.fail("comparison of interior pointers unsupported")
+		// two interior pointers are equal exactly if they descend the same way into the same object
+		// (distinct variables have distinct addresses; a pointer into an object never equals the object
+		// pointer of another type)
+		if len(av.Path) != len(bp.Path) {
+			return "false"
+		}
+		conj := []string{eq(av.Base, bp.Base)}
+		for k := range av.Path {
+			sa, sb := av.Path[k], bp.Path[k]
+			if sa.Field != sb.Field {
+				return "false"
+			}
+			if sa.Field == "" {
+				conj = append(conj, eq(sa.Idx, sb.Idx))
+			}
+		}
+		if len(conj) == 1 {
+			return conj[0]
+		}
+		return "(and " + strings.Join(conj, " ") + ")"
 	case Iface:
 		if bs, ok := b.(Scalar); ok && bs.T == "nil" {
 			return x.isNil(a)
